@@ -337,6 +337,15 @@ func init() {
 					d := spec.SDgram{AType: de.atype, Host: de.host, Port: destUDPPort, Size: size, Fill: r.Pick(0, 0, 1, 2, 3), GapUs: int64(r.Pick(1, 100, 5000))}
 					if r.Bool(0.06) {
 						d.Malformed = []string{"bad-prefix", "bad-suffix", "short-header", "frag"}[r.Intn(4)]
+					} else if !q.Wrapper && r.Bool(0.3) {
+						// the frame reaches the server in pieces: cut inside the 3-byte frame header,
+						// inside the SOCKS header, in the body, before the trailing marker
+						total := 4 + 10 + size
+						for _, c := range []int{1, 2, 3, 4 + r.Intn(8), total / 2, total - 1} {
+							if r.Bool(0.4) && c > 0 && c < total && (len(d.SplitAt) == 0 || c > d.SplitAt[len(d.SplitAt)-1]) {
+								d.SplitAt = append(d.SplitAt, c)
+							}
+						}
 					}
 					q.Dgrams = append(q.Dgrams, d)
 				}
